@@ -24,7 +24,7 @@ func VerifC06NoMatch() {
 	for i := 0; i < nfiles; i++ {
 		noMatch := nd.Not(e.anyMatch(i))
 		skipped := nd.And(e.opts.SkipGenerated, nd.And(e.generated[i].set, e.generated[i].val))
-		nd.Assert(nd.Implies(noMatch, len(e.effectsFor(i, "write", "diff", "stderr", "format", "process")) == 0),
+		nd.Assert(nd.Implies(noMatch, len(e.effectsFor(i, "write", "fsmut", "diff", "stderr", "format", "process")) == 0),
 			"a file in which nothing matched was written, diffed, described or re-printed")
 		outs := e.effectsFor(i, "stdout")
 		echo := nd.And(e.opts.Print, nd.Not(skipped))
